@@ -364,8 +364,8 @@ def monPure (inp : List String) (implOut : List String) : List String :=
   | "fformat" :: _, ["out", a, la, b, lb, wire, _flags] =>
     let (ba, bb) := (unhex a, unhex b)
     if la.toNat? != some ba.length || lb.toNat? != some bb.length then ["mon C18 FAIL frame-len"]
-    else if unhex wire != ba ++ bb then ["mon C18 FAIL encoders-differ"]
-    else ["mon C18 ok"]
+    else if unhex wire != ba ++ bb then ["mon C18 FAIL encoders-differ", "mon C19 FAIL in-place-masking-touches-other-bytes"]
+    else ["mon C18 ok", "mon C19 ok"]
   | ["utf8", h], "out" :: "std" :: verdict :: _ =>
     -- C08: the real from_utf8 against Table 3-7
     let wf := Spec.wellFormedB (unhex h)
@@ -507,6 +507,119 @@ def showHsErr : HsErr → String
   | .urlNoPathOrQuery => "Url.NoPathOrQuery"
   | .io k => "Io." ++ kindName k
   | .http status body => s!"Http({status},{match body with | some b => hex b | none => "none"})"
+
+
+/-- executable transcription of the property's conditions on a parsed request head (C15) -/
+def validUpgradeB (h : RawHead) : Bool :=
+  let find (name : String) : Option Bytes := hget h.headers name.toUTF8.toList
+  let printable (v : Bytes) : Bool := v.all fun b => b == 9 || (32 ≤ b && b < 127)
+  let lowerS (v : Bytes) : Bytes := v.map fun b => if 65 ≤ b && b ≤ 90 then b + 32 else b
+  h.method == "GET".toUTF8.toList && h.version ≥ 1 && h.uriOk
+  && (match find "Connection" with
+      | some v => printable v && ((splitOn [32, 44] v).any fun t => lowerS t == "upgrade".toUTF8.toList)
+      | none => false)
+  && (match find "Upgrade" with
+      | some v => printable v && lowerS v == "websocket".toUTF8.toList
+      | none => false)
+  && find "Sec-WebSocket-Version" == some "13".toUTF8.toList
+  && (find "Sec-WebSocket-Key").isSome
+
+def isPrefixOf (p l : Bytes) : Bool := l.take p.length == p
+
+/-- monitors on a handshake case: impl lines only -/
+def monHs (isServer : Bool) (lines : Array String) (cbSpec : String) : List String := Id.run do
+  let mut out : List String := []
+  let mut wire : Bytes := []
+  let mut lastComplete : Option (Nat × RawHead) := none
+  let mut lastLen := 0
+  let mut reads := 0
+  let mut hsOk := false
+  let mut hsDone := false
+  let mut finishing := false
+  let mut panicked := false
+  let mut implHeaders : List (Bytes × Bytes) := []
+  for l in lines do
+    match words l with
+    | "parsed" :: n :: rest =>
+      if !hsDone then
+        reads := reads + 1
+        lastLen := n.toNat?.getD 0
+        match parseHeadParse rest with
+        | .complete size h => lastComplete := some (size, h)
+        | _ => pure ()
+    | "reqheaders" :: r :: _ => implHeaders := parseKvList r
+    | "wire" :: w :: _ =>
+      if !hsDone then wire := wire ++ unhex w
+      if finishing then hsDone := true
+    | "res" :: "hs" :: "ok" :: _ => hsOk := true; finishing := true
+    | "res" :: "hs" :: "err" :: _ => finishing := true
+    | "res" :: "panic" :: _ => panicked := true
+    | _ => pure ()
+  if panicked then out := out ++ ["mon C07 FAIL panic-handshake"] else out := out ++ ["mon C07 ok"]
+  -- C17: the guard bounds what a reading stage consumes
+  if reads > 513 || lastLen > 65536 + 4096 then out := out ++ ["mon C17 FAIL guard-bound-exceeded"]
+  else out := out ++ ["mon C17 ok"]
+  let status101 : Bytes := "HTTP/1.1 101".toUTF8.toList
+  if isServer then
+    let valid := match lastComplete with
+      | some (size, h) => validUpgradeB h && size == lastLen
+      | none => false
+    let wrote101 := isPrefixOf status101 wire
+    let rejecting := cbSpec.startsWith "reject"
+    if hsOk && !valid then out := out ++ ["mon C15 FAIL upgraded-invalid-request"]
+    else if wrote101 && !valid then out := out ++ ["mon C15 FAIL wrote-101-for-invalid-request"]
+    else if hsOk then
+      match lastComplete with
+      | some (_, h) =>
+        let key := (hget h.headers "Sec-WebSocket-Key".toUTF8.toList).getD []
+        let accept := Hs.base64Encode (Hs.sha1 (key ++ "258EAFA5-E914-47DA-95CA-C5AB0DC85B11".toUTF8.toList))
+        let want := "sec-websocket-accept: ".toUTF8.toList ++ accept ++ [13, 10]
+        let hasAccept := (List.range wire.length).any fun i => (wire.drop i).take want.length == want
+        let hasUpg := (List.range wire.length).any fun i => isPrefixOf "upgrade: websocket\r\n".toUTF8.toList (wire.drop i)
+        let hasConn := (List.range wire.length).any fun i => isPrefixOf "connection: Upgrade\r\n".toUTF8.toList (wire.drop i)
+        if !(wrote101 && hasAccept && hasUpg && hasConn) then out := out ++ ["mon C15 FAIL bad-101-response"]
+        else out := out ++ ["mon C15 ok"]
+      | none => out := out ++ ["mon C15 FAIL upgraded-without-head"]
+    else if valid && !rejecting && finishing && !(lines.any fun l => l.startsWith "res hs err Io." || l.startsWith "res hs err Protocol.HandshakeIncomplete" || l.startsWith "res hs err AttackAttempt" || l.startsWith "res hs err Protocol.Custom") then
+      out := out ++ ["mon C15 FAIL valid-request-refused"]
+    else out := out ++ ["mon C15 ok"]
+  else
+    -- C16: the request on the wire and the acceptance decision
+    let crlf2 : Bytes := [13, 10, 13, 10]
+    let complete := (List.range wire.length).any fun i => (wire.drop i).take 4 == crlf2
+    if complete then
+      let text := String.ofList (wire.map fun b => Char.ofNat b.toNat)
+      let ls := (text.splitOn "\r\n")
+      let hdrs := (ls.drop 1).filter (· != "")
+      let count (name : String) : Nat := (hdrs.filter fun l => (l.toLower).startsWith (name.toLower ++ ":")).length
+      let once := ["Host", "Connection", "Upgrade", "Sec-WebSocket-Version", "Sec-WebSocket-Key"].all fun n => count n == 1
+      let startOk := match ls.head? with
+        | some l => l.startsWith "GET " && l.endsWith " HTTP/1.1"
+        | none => false
+      let hostLine := (hdrs.find? fun l => l.toLower.startsWith "host:").getD ""
+      if !startOk || !once then out := out ++ ["mon C16 FAIL malformed-request"]
+      else if hostLine.contains '@' then out := out ++ ["mon C16 FAIL host-contains-credentials"]
+      else pure ()
+    if hsOk then
+      match lastComplete with
+      | some (_, h) =>
+        let key := (hget implHeaders "sec-websocket-key".toUTF8.toList).getD []
+        let accept := Hs.base64Encode (Hs.sha1 (key ++ "258EAFA5-E914-47DA-95CA-C5AB0DC85B11".toUTF8.toList))
+        let lowerS (v : Bytes) : Bytes := v.map fun b => if 65 ≤ b && b ≤ 90 then b + 32 else b
+        let okUp := ((hget h.headers "Upgrade".toUTF8.toList).map fun v => lowerS v == "websocket".toUTF8.toList).getD false
+        let okConn := ((hget h.headers "Connection".toUTF8.toList).map fun v => lowerS v == "upgrade".toUTF8.toList).getD false
+        let okAcc := hget h.headers "Sec-WebSocket-Accept".toUTF8.toList == some accept
+        let offered := (hget implHeaders "sec-websocket-protocol".toUTF8.toList).map fun v =>
+          (splitOn [44] v).map trimAscii
+        let okProto := match hget h.headers "Sec-WebSocket-Protocol".toUTF8.toList, offered with
+          | none, none => true
+          | some p, some os => os.contains p
+          | _, _ => false
+        if h.code != 101 || !okUp || !okConn || !okAcc || !okProto then
+          out := out ++ ["mon C16 FAIL accepted-bad-response"]
+      | none => out := out ++ ["mon C16 FAIL accepted-without-head"]
+    if !(out.any fun l => l.startsWith "mon C16") then out := out ++ ["mon C16 ok"]
+  return out
 
 inductive HsStage where
   | fresh
@@ -679,6 +792,10 @@ partial def runHsCase (lines : Array String) : Array String := Id.run do
       if tag == "io" || tag == "res" || tag == "wire" || tag == "can" || tag == "parsed" || tag == "uriview"
           || tag == "reqheaders" then
         i := i + 1
+      else if tag == "end" then
+        for m in monHs isServer lines ((kv hcfg "callback").getD "none") do out := out.push m
+        out := out.push line
+        i := i + 1
       else
         out := out.push line
         i := i + 1
@@ -686,6 +803,149 @@ partial def runHsCase (lines : Array String) : Array String := Id.run do
   return out
 
 end Handshake
+
+
+/-! ### two-party cases (C04) -/
+
+structure TpSide where
+  st : St := {}
+  ic : Mon.ImplCase := {}
+  /-- global op index of each op of this side -/
+  idx : Array Nat := #[]
+
+/-- joint monitor for C04 on the implementation's trace -/
+def monC04 (c s : TpSide) (drops : List (String × Nat)) : List String :=
+  let sideFails (me peer : TpSide) (name : String) : List String := Id.run do
+    let mut out : List String := []
+    -- neither side ever sees a protocol error (writing after one's own close is a user error, not counted)
+    for o in me.ic.ops do
+      match Mon.resErr o with
+      | some e =>
+        if e.startsWith "Protocol." && e != "Protocol.SendAfterClosing" then
+          out := out ++ [s!"{name}-protocol-error-{e}"]
+      | none => pure ()
+      if Mon.isPanic o then out := out ++ [s!"{name}-panic"]
+    -- what this side read is a prefix of what the peer wrote (data messages, in order)
+    let got := (me.ic.ops.toList.filter fun o => Mon.isOp o "read").filterMap fun o =>
+      match o.res with
+      | ["ok", "text", h] => some ("text " ++ h)
+      | ["ok", "binary", h] => some ("binary " ++ h)
+      | _ => none
+    let sent := peer.ic.ops.toList.filterMap fun o =>
+      match o.body, o.res with
+      | ["write", "text", h], r => if r.head? == some "ok" || ((Mon.resErr o).map (·.startsWith "Io.")).getD false then some ("text " ++ h) else none
+      | ["write", "binary", h], r => if r.head? == some "ok" || ((Mon.resErr o).map (·.startsWith "Io.")).getD false then some ("binary " ++ h) else none
+      | _, _ => none
+    if !(got.length ≤ sent.length && got == sent.take got.length) then
+      out := out ++ [s!"{name}-read-not-prefix-of-peer-writes"]
+    return out
+  let closing := c.ic.ops.any (fun o => Mon.isOp o "close" || Mon.isWriteKind o "close")
+    || s.ic.ops.any (fun o => Mon.isOp o "close" || Mon.isWriteKind o "close")
+  let closedAt (t : TpSide) : Option Nat := Id.run do
+    let mut r : Option Nat := none
+    for i in [0:t.ic.ops.size] do
+      if Mon.resErr t.ic.ops[i]! == some "ConnectionClosed" && r.isNone then r := t.idx[i]?
+    return r
+  let bothAlive := !(c.ic.ops.any Mon.isPanic) && !(s.ic.ops.any Mon.isPanic)
+  let term : List String :=
+    if !closing || !bothAlive then []
+    else match closedAt s, closedAt c with
+      | some i, some j => if i < j then [] else ["client-closed-before-server"]
+      | none, _ => ["server-never-told-closed"]
+      | some _, none => ["client-never-told-closed"]
+  -- everything written and flushed before the sender's Close is delivered first
+  let delivered (me peer : TpSide) (name : String) : List String :=
+    if !closing || !bothAlive || (closedAt me).isNone then [] else Id.run do
+      let mut flushed : List String := []
+      let mut pendingW : List String := []
+      let mut stop := false
+      for o in peer.ic.ops do
+        if !stop then
+          if Mon.isOp o "close" || Mon.isWriteKind o "close" then stop := true
+          else
+            match o.body, o.res with
+            | ["write", k, h], "ok" :: _ => if k == "text" || k == "binary" then pendingW := pendingW ++ [k ++ " " ++ h]
+            | ["flush"], ["ok", "unit"] => flushed := flushed ++ pendingW; pendingW := []
+            | _, _ => pure ()
+      let got := (me.ic.ops.toList.filter fun o => Mon.isOp o "read").filterMap fun o =>
+        match o.res with
+        | ["ok", "text", h] => some ("text " ++ h)
+        | ["ok", "binary", h] => some ("binary " ++ h)
+        | _ => none
+      if flushed.all (fun m => got.contains m) then [] else [s!"{name}-missed-message-flushed-before-close"]
+  let _ := drops
+  let fails := sideFails c s "client" ++ sideFails s c "server" ++ term ++ delivered c s "client" ++ delivered s c "server"
+  match fails with
+  | [] => ["mon C04 ok"]
+  | f :: _ => [s!"mon C04 FAIL {f}"]
+
+partial def runTpCase (lines : Array String) : Array String := Id.run do
+  let mut out : Array String := #[]
+  let mut cs : TpSide := {}
+  let mut ss : TpSide := {}
+  let mut drops : List (String × Nat) := []
+  let mut opCount := 0
+  let mut i := 0
+  while i < lines.size do
+    let line := lines[i]!
+    let toks := words line
+    match toks with
+    | "cfg2" :: rest =>
+      out := out.push line
+      let (role, cfg, pre) := parseCfg rest
+      let side : TpSide := { st := { role := role, cfg := cfg, pre := pre }, ic := { role := role, cfg := cfg, pre := pre } }
+      if kv rest "side" == some "c" then cs := side else ss := side
+      i := i + 1
+    | "drop" :: sd :: _ =>
+      out := out.push line
+      drops := drops ++ [(sd, opCount)]
+      i := i + 1
+    | "op" :: sd :: rest =>
+      out := out.push line
+      let mut j := i + 1
+      let mut ev : Events := {}
+      let mut iop : Mon.ImplOp := { body := rest.filter (fun t => !t.startsWith "m=") }
+      while j < lines.size do
+        let t := words lines[j]!
+        match t with
+        | "io" :: evs => ev := parseIo evs; iop := { iop with io := evs.filter (· != "-") }; j := j + 1
+        | "res" :: r => iop := { iop with res := r }; j := j + 1
+        | "wire" :: w :: _ => iop := { iop with wire := unhex w }; j := j + 1
+        | "can" :: cs' => iop := { iop with canR := kv cs' "r" == some "1", canW := kv cs' "w" == some "1" }; j := j + 1
+        | _ => break
+      i := j
+      let mut me := if sd == "c" then cs else ss
+      -- the bytes the peer's transport delivered to this side are its inbound stream (for the per-side monitors)
+      let delivered : Bytes := iop.io.foldl (fun acc t =>
+        if t.startsWith "r:" && t != "r:b" && t != "r:e" && !t.startsWith "r:x" then acc ++ unhex (t.drop 2).toString else acc) []
+      me := { me with ic := { me.ic with ops := me.ic.ops.push iop, peer := me.ic.peer ++ delivered }, idx := me.idx.push opCount }
+      opCount := opCount + 1
+      if me.st.world.isNone && !me.st.failedNew then
+        match Ctx.new me.st.role me.st.cfg (me.st.pre.getD []) with
+        | some c => me := { me with st := { me.st with world := some { c := c, t := { rd := [], wr := [], fl := [] } } } }
+        | none => me := { me with st := { me.st with failedNew := true } }
+      match me.st.world with
+      | none => out := out.push "res nosocket"
+      | some w =>
+        let body := rest.filter (fun t => !t.startsWith "m=")
+        let (w', ls) := runOp w body (parseMasks toks) ev
+        me := { me with st := { me.st with world := some w' } }
+        for l in ls do out := out.push l
+      if sd == "c" then cs := me else ss := me
+    | tag :: _ =>
+      if tag == "io" || tag == "res" || tag == "wire" || tag == "can" then
+        i := i + 1
+      else if tag == "end" then
+        for m in monC04 cs ss drops do out := out.push m
+        for m in Mon.monC03 cs.ic ++ Mon.monC03 ss.ic ++ Mon.monC07 cs.ic ++ Mon.monC07 ss.ic ++ Mon.monC13 cs.ic ++ Mon.monC13 ss.ic do
+          if !(m.endsWith " ok") then out := out.push m
+        out := out.push line
+        i := i + 1
+      else
+        out := out.push line
+        i := i + 1
+    | [] => i := i + 1
+  return out
 
 end Drv
 
@@ -714,7 +974,8 @@ partial def loop (h : IO.FS.Stream) (out : IO.FS.Stream) (cur : Array String)
   else if l == "end" then
     let all := cur.push l
     let isHs := ((all[0]?.getD "").splitOn " ").any fun t => t == "hs-server" || t == "hs-client"
-    for o in (if isHs then Drv.runHsCase all else Drv.runCase all) do out.putStrLn o
+    let isTp := ((all[0]?.getD "").splitOn " ").any fun t => t == "twoparty"
+    for o in (if isHs then Drv.runHsCase all else if isTp then Drv.runTpCase all else Drv.runCase all) do out.putStrLn o
     loop h out #[] none
   else
     loop h out (cur.push l) none
